@@ -417,7 +417,9 @@ def _propose(rnd, st):
         rndg = rnd.choice((NONE, NONE, 2, 1, 0)) if st.scale == 100 else rnd.choice((NONE, 0, 3))
         if st.scale == 1 and rndg == 3:
             rndg = NONE
-        return (("csv", names, rnd.random() < 0.5, rndg, fspan, rnd.choice((",", ";", "|")), rnd.choice(("", "NA", "NaN"))), h, h, rnd.choice(others))
+        return (("csv", names, rnd.random() < 0.5, rndg, fspan, rnd.random() < 0.3, rnd.choice((",", ";", "|")), rnd.choice(("", "NA", "NaN")),
+                 rnd.choice(("sdmx", "sdmx", "iso")) if "I" not in fs else "sdmx"),      # integer periods have no ISO date
+                h, h, rnd.choice(others))
     if kind == "slate":
         f = rnd.choice("QQMYHDI")
         cand = [n for n in A.keys() if (not _is_ser(A, n) and not isinstance(A[n], list)) or (_is_ser(A, n) and _freq_of(st, A[n]) == f and A[n].shape[1] == 1 and A[n].start is not None)]
@@ -444,7 +446,7 @@ def _apply_traced(st, op, h, g, k, tmpdir, step):
     A = st.boxes[h]
     name = op[0]
     if name == "csv":
-        names, dr, rndg, fspan, delim, nan_str = op[1], op[2], op[3], op[4], op[5], op[6]
+        names, dr, rndg, fspan, start_only, delim, nan_str, dates = op[1], op[2], op[3], op[4], op[5], op[6], op[7], op[8]
         kw = {"names": [n for n in names if n in A.keys() and _is_ser(A, n)], "description_row": bool(dr), "when_empty": "silent",
               "delimiter": delim, "nan_str": nan_str}
         if not is_mv(rndg):
@@ -452,15 +454,22 @@ def _apply_traced(st, op, h, g, k, tmpdir, step):
         if not is_mv(fspan):
             w = world(fspan[0])
             P = tuple(fspan[1])
-            step = (P[1] - P[0]) if len(P) > 1 else 1
-            if len(P) > 1 and step != 0 and all(b - a == step for a, b in zip(P, P[1:])):
-                kw["frequency_span"] = {FREQ_ENUM[fspan[0]]: ir.Span(w.per(P[0]), w.per(P[-1]), step)}
+            stp = (P[1] - P[0]) if len(P) > 1 else 1
+            if len(P) > 1 and stp != 0 and all(b - a == stp for a, b in zip(P, P[1:])):
+                kw["frequency_span"] = {FREQ_ENUM[fspan[0]]: ir.Span(w.per(P[0]), w.per(P[-1]), stp)}
             else:
                 kw["frequency_span"] = {FREQ_ENUM[fspan[0]]: tuple(w.per(t) for t in P)}
         src_freq = {n: _freq_of(st, A[n]) for n in kw["names"]}
         path = os.path.join(tmpdir, "t%d.csv" % step)
+        rkw = {}
+        if dates == "iso":
+            # periods written and read as ISO dates (the frequency then comes from the block marker only)
+            kw["date_formatter"] = ir.Period.to_iso_string
+            rkw["period_from_string"] = ir.Period.from_iso_string
+        if start_only:
+            rkw["start_period_only"] = True
         A.to_csv_file(path, **kw)
-        new = ir.Databox.from_csv_file(path, description_row=bool(dr), delimiter=delim)
+        new = ir.Databox.from_csv_file(path, description_row=bool(dr), delimiter=delim, **rkw)
         os.remove(path)
         for n in new.keys():
             if isinstance(new[n], ir.Series):
@@ -552,7 +561,7 @@ def record_databox_trace(rnd, nsteps, tmpdir, scale):
         except Exception as ex:
             raised = repr(ex)[:300]
         obs, problem = _observe(st) if not raised else (steps[-1]["obs"] if steps else obs0, None)
-        spec_op = op[:5] if op[0] == "csv" else op       # delimiter and NaN string are not part of the meaning
+        spec_op = op[:6] if op[0] == "csv" else op       # delimiter, NaN string and the text form of the periods are not part of the meaning
         steps.append({"op": spec_op, "h": h, "g": g, "k": k, "raised": bool(raised), "obs": obs, "note": raised or "", "full": op})
         if problem or raised:
             trace["steps"] = tuple(steps)
@@ -563,7 +572,13 @@ def record_databox_trace(rnd, nsteps, tmpdir, scale):
                 c = it.get("c")
                 if c and not is_mv(c["start"]) and (c["start"] < T_ULO + 2 or c["start"] + len(c["rows"]) - 1 > T_UHI - 2):
                     out = True
+                    if c["start"] < T_ULO - 60 or c["start"] + len(c["rows"]) - 1 > T_UHI + 60:
+                        # the driver's own parameters keep every series within a few dozen periods of the window: this is no edge effect
+                        trace["steps"] = tuple(steps)
+                        return trace, "after step %d %s the series %s[%s] (frequency %s) lies %d periods from the base period, where no operation of this history can have put it" % (
+                            len(steps), _plain(op), hh, n, it["f"], c["start"])
         if out:
+            # the history has reached the edge of the window the specification is instantiated with: it ends before this step
             steps.pop()
             break
     trace["steps"] = tuple(steps)
@@ -609,7 +624,7 @@ def rerecord_databox_trace(sc, tmpdir):
         except Exception as ex:
             raised = repr(ex)[:300]
         obs, problem = _observe(st) if not raised else (steps[-1]["obs"] if steps else obs0, None)
-        steps.append({"op": op[:5] if op[0] == "csv" else op, "h": h, "g": g, "k": k, "raised": bool(raised), "obs": obs, "note": raised or "", "full": op})
+        steps.append({"op": op[:6] if op[0] == "csv" else op, "h": h, "g": g, "k": k, "raised": bool(raised), "obs": obs, "note": raised or "", "full": op})
         if problem or raised:
             break
     trace["steps"] = tuple(steps)
